@@ -79,7 +79,15 @@ var registry = map[string]func(t *testing.T, c *Collector){
 		runSeqScenarios(c, c11Scenarios(c.job.Tier))
 	},
 	"C08": func(t *testing.T, c *Collector) { runC08(c) },
-	"C14": func(t *testing.T, c *Collector) { runC14(c) },
+	"C14": func(t *testing.T, c *Collector) {
+		runC14(c)
+		engine, rule, bound := c.res.Engine, c.res.Rule, c.res.Bound
+		scs := c14ConcScenarios(c.job.Tier)
+		runConcScenarios(t, c, scs)
+		c.res.Engine = engine + " + A (two threads on one FileCache, all interleavings at lock / file-system-call granularity)"
+		c.res.Rule = rule + "; concurrent part: 6 two-thread programs x capacities 0-2, every handle must be readable by its holder until it releases it, invariants at quiescence"
+		c.res.Bound = bound + fmt.Sprintf("; %d concurrent scenarios with preemption bound %d", len(scs), scs[0].Bound)
+	},
 	"C17": func(t *testing.T, c *Collector) {
 		c.res.Rule = "all interleavings (<= bound preemptions) of Close with the real flusher goroutine and both GC goroutines, with ticks of the fake clock placing a flush, a primary-GC cycle and/or an index-GC cycle in progress, optionally a concurrent writer; oracle at the moment Close returns: nil error, no goroutine executing store code (runtime.Stack census), 0 open descriptors (MemFS ledger); after 3x the GC interval of fake time: no file-system mutation, census still empty; the directory reopens as a linearization of the acknowledged calls, also after a further GC round; plus failing opens and 20 open/close cycles (sequential); non-trivial = two threads alternated on the same lock or file"
 		scs := c17Scenarios(c.job.Tier)
@@ -119,7 +127,8 @@ var registry = map[string]func(t *testing.T, c *Collector){
 		c.res.Rule = "fsck (independent reader of every file format) on every quiescent state reached: after Flush against the live bucket table, after Close against snapshot and rescan; histories as in C04; non-trivial = a GC op mutated the file system"
 		runSeqScenarios(c, gcScenarios("C07", c.job.Tier))
 		runCrashScenarios(c, c03Scenarios("C07", c.job.Tier))
-		c.res.Engine = "S + X (fsck on every quiescent state of the GC history enumeration and on every recovered crash image)"
+		runConcScenarios(t, c, c07ConcScenarios(c.job.Tier))
+		c.res.Engine = "S + X + A (fsck on every quiescent state of the GC history enumeration, on every recovered crash image, and at quiescence of every interleaving of the C06 scenarios with one preemption less)"
 	},
 	"C13": func(t *testing.T, c *Collector) {
 		c.res.Rule = "freed-location ledger on every history of the C04 universe: the multiset of locations that stopped being current must equal the multiset of entries ever appended to the freelist (from the MemFS log) and, after a complete cycle, the multiset presented to the primary GC; non-trivial = at least one location was superseded"
